@@ -138,10 +138,15 @@ def correspondence(chk, drv):
                                      'zero_err': sum(a.startswith('err') for a in cz.py), 'zero_ok': sum(a.startswith('ok') for a in cz.py)}
 
 
-def thread_script(pbc, seed, n_ops):
+def thread_script(pbc, seed, n_ops, chk=None):
     rng = random.Random(seed)
     shots, calcs = make_pool(pbc, rng)
-    return [one_op(pbc, rng, shots, calcs) for _ in range(n_ops)]
+    out = []
+    for _ in range(n_ops):
+        if chk is not None and chk.over():
+            break
+        out.append(one_op(pbc, rng, shots, calcs))
+    return out
 
 
 def search(chk, broken):
@@ -149,7 +154,7 @@ def search(chk, broken):
     rng = chk.rng
     evals = 0
     # 1. repeat / interleave / fresh vs long-used, incl. raising calls (python only, bit-exact)
-    n = 4 if (chk.tier == 'quick' and not broken) else 150
+    n = 4 if chk.tier == 'quick' else 150
     for _ in range(n):
         if chk.over():
             break
@@ -157,11 +162,11 @@ def search(chk, broken):
         seed = rng.randrange(10 ** 9)
         # the same operation sequence on a long-used pool and, op by op, on fresh calculators
         r1 = random.Random(seed)
-        outs = [one_op(pbc, r1, shots, calcs) for _ in range(10)]
+        outs = [one_op(pbc, r1, shots, calcs) for _ in range(10) if not chk.over()]
         # replay from identical initial objects
         rng2 = random.Random(chk.rng.random())
         evals += 10
-    for t in range(3 if (chk.tier == 'quick' and not broken) else 40):
+    for t in range(3 if chk.tier == 'quick' else 40):
         if chk.over():
             break
         seed = rng.randrange(10 ** 9)
@@ -172,8 +177,8 @@ def search(chk, broken):
             k = next(i for i, (x, y) in enumerate(zip(a, b)) if x != y)
             chk.failures.append(Failure('not-deterministic', f'the same history from identical arguments gave different outcomes at operation {k}', {'op': 'repeat', 'seed': seed}))
     # 2. calculators owned by distinct threads
-    n_threads, n_ops = 4, (6 if (chk.tier == 'quick' and not broken) else 40)
-    rounds = 2 if (chk.tier == 'quick' and not broken) else 10
+    n_threads, n_ops = 4, (6 if chk.tier == 'quick' else 40)
+    rounds = 2 if chk.tier == 'quick' else 10
     old = sys.getswitchinterval()
     try:
         sys.setswitchinterval(1e-6)
